@@ -109,6 +109,8 @@ macro_rules! create_window_processor {
      $seed_registry:expr, $latest_hybrid_results:expr) => {{
         let mut prev_window_triples: Vec<I> = Vec::new();
         move |content: ContentContainer<I>| {
+            #[cfg(kolibrie_verif)]
+            crate::rsp_engine::verif_hooks::processor_entered();
             debug!(
                 "Processing window {} with query: {:?} using {:?} execution",
                 $window_iri, $query, $query_execution_mode
@@ -1297,6 +1299,7 @@ pub mod verif_hooks {
 
     static FIRINGS_PROCESSED: AtomicUsize = AtomicUsize::new(0);
     static COORD_CONSUMED: AtomicUsize = AtomicUsize::new(0);
+    static PROCESSOR_ENTERED: AtomicUsize = AtomicUsize::new(0);
     static WORKERS_EXITED: AtomicUsize = AtomicUsize::new(0);
     static COORD_EXITED: AtomicUsize = AtomicUsize::new(0);
     /// bit i set = every thread reaching `yield_point(i)` waits there until the bit is cleared.
@@ -1308,6 +1311,7 @@ pub mod verif_hooks {
     pub fn reset() {
         FIRINGS_PROCESSED.store(0, Ordering::SeqCst);
         COORD_CONSUMED.store(0, Ordering::SeqCst);
+        PROCESSOR_ENTERED.store(0, Ordering::SeqCst);
         WORKERS_EXITED.store(0, Ordering::SeqCst);
         COORD_EXITED.store(0, Ordering::SeqCst);
         HOLD_MASK.store(0, Ordering::SeqCst);
@@ -1343,6 +1347,13 @@ pub mod verif_hooks {
     }
     pub(crate) fn coordinator_exited() {
         COORD_EXITED.fetch_add(1, Ordering::SeqCst);
+    }
+    /// Number of window contents handed to a window processor so far (both operation modes).
+    pub fn processor_entered_count() -> usize {
+        PROCESSOR_ENTERED.load(Ordering::SeqCst)
+    }
+    pub(crate) fn processor_entered() {
+        PROCESSOR_ENTERED.fetch_add(1, Ordering::SeqCst);
     }
     pub(crate) fn firing_processed() {
         FIRINGS_PROCESSED.fetch_add(1, Ordering::SeqCst);
